@@ -65,7 +65,7 @@ TruncateAct == /\ phase = "written" /\ file.dlen = file.announced
                /\ \E len \in 0..(file.announced - 1) : file' = Truncate(file, len)
                /\ truncated' = TRUE /\ UNCHANGED << img, ty, user, res, phase >>
 Read == /\ phase = "written"
-        /\ res' = ReadFile(file) /\ phase' = "done" /\ UNCHANGED << img, ty, user, file, truncated >>
+        /\ res' = ReadFile(file, Env) /\ phase' = "done" /\ UNCHANGED << img, ty, user, file, truncated >>
 Next == Write \/ TruncateAct \/ Read
 Spec == Init /\ [][Next]_vars
 
